@@ -12,14 +12,14 @@ use write_fonts::tables::layout as wl;
 use write_fonts::verif_hooks::{ObjView, VGraph};
 
 /// big-endian u16; reads beyond the end (a truncated subtable) give 0xDEAD instead of a panic
-fn u16_at(b: &[u8], at: usize) -> u16 {
+pub(crate) fn u16_at(b: &[u8], at: usize) -> u16 {
     match b.get(at..at + 2) {
         Some(x) => u16::from_be_bytes([x[0], x[1]]),
         None => 0xDEAD,
     }
 }
 
-fn render_cov_bytes(b: &[u8]) -> String {
+pub(crate) fn render_cov_bytes(b: &[u8]) -> String {
     match rl::CoverageTable::read(FontData::new(b)) {
         Ok(rl::CoverageTable::Format1(t)) => {
             let v: Vec<u16> = t.glyph_array().iter().map(|g| g.get().to_u16()).collect();
@@ -38,7 +38,7 @@ fn render_cov_bytes(b: &[u8]) -> String {
     }
 }
 
-fn render_cd_bytes(b: &[u8]) -> String {
+pub(crate) fn render_cd_bytes(b: &[u8]) -> String {
     match rl::ClassDef::read(FontData::new(b)) {
         Ok(rl::ClassDef::Format1(t)) => {
             let v: Vec<u16> = t.class_value_array().iter().map(|g| g.get()).collect();
@@ -57,12 +57,12 @@ fn render_cd_bytes(b: &[u8]) -> String {
     }
 }
 
-fn link_at(o: &ObjView, pos: u32) -> Option<u64> {
+pub(crate) fn link_at(o: &ObjView, pos: u32) -> Option<u64> {
     o.links.iter().find(|l| l.0 == pos).map(|l| l.2)
 }
 
 /// the subtables under the (only) lookup of type `name` / extension, in order
-fn subtables<'a>(objs: &'a BTreeMap<u64, ObjView>, lookup_id: u64) -> Vec<&'a ObjView> {
+pub(crate) fn subtables<'a>(objs: &'a BTreeMap<u64, ObjView>, lookup_id: u64) -> Vec<&'a ObjView> {
     let lk = &objs[&lookup_id];
     lk.links
         .iter()
